@@ -334,14 +334,13 @@ theorem forStates_mul_gate (sd eps : Rat) (hss : List (Mat Rat n n)) (G : Mat Ra
   unfold forStates
   simp only [List.map_map, Function.comp_def, mulVec_mulVec]
 
-/-- C06 associativity `(M∘G)∘ρ = M∘(G∘ρ)` as model values (same ensemble, probabilities, truncation decisions, errors),
-for every well-formed measurement process **with the default `eps_zero`**, every gate and every state. Partial: for
-a non-default `eps_zero` the statement is false in the model and in the code (`assoc_mprocess_gate_state_eps_fails`,
-open finding D16: `M∘G` is rebuilt with the default `eps_zero`). -/
-theorem assoc_mprocess_gate_state_default_eps_partial (c : Cfg) (s : Nat) (shape : List Nat) (hss : List (Mat Rat n n))
+/-- C06 associativity, exact: `(M∘G)∘ρ` and `M∘(G∘ρ)` are the same model value (same ensemble, same probabilities,
+same truncation decisions, same `eps_zero`, same errors), for every well-formed measurement process with **any**
+`eps_zero`, every gate and every state (the composite `M∘G` keeps `M`'s `eps_zero`). -/
+theorem assoc_mprocess_gate_state (c : Cfg) (s : Nat) (shape : List Nat) (eps : Rat) (hss : List (Mat Rat n n))
     (G : Mat Rat n n) (rho : Vec Rat n) (hsz : hss.length = QM.C16.prod shape) :
-    (compose c (.mprocess s shape eps8 hss) (.gate s G)).bind (fun x => compose c x (.state s rho))
-      = (compose c (.gate s G) (.state s rho)).bind (fun y => compose c (.mprocess s shape eps8 hss) y) := by
+    (compose c (.mprocess s shape eps hss) (.gate s G)).bind (fun x => compose c x (.state s rho))
+      = (compose c (.gate s G) (.state s rho)).bind (fun y => compose c (.mprocess s shape eps hss) y) := by
   simp only [compose, ne_eq, not_true_eq_false, if_false, mkMProcess, List.length_map, hsz,
     Except.bind, mpState, forStates_mul_gate]
 
@@ -528,20 +527,20 @@ theorem compose_inst (c : Cfg) (s : Nat) (a b : QOp n) (ha : IsInst s a) (hb : I
       exact ⟨.gate s (A.mul B), by simp [compose, ha, hb], by simp [IsInst], by simp [instOf, mpMp], by simp [shapeOf]⟩
     | mprocess s2 sh e hss =>
       simp only [IsInst] at ha hb; obtain ⟨hs, hl⟩ := hb
-      exact ⟨.mprocess s sh eps8 (hss.map fun hs => A.mul hs), by simp [compose, mkMProcess, hl, ha, hs],
+      exact ⟨.mprocess s sh e (hss.map fun hs => A.mul hs), by simp [compose, mkMProcess, hl, ha, hs],
         by simp [IsInst, hl], (gate_branches_are_instruments A A hss).2.1, by simp [shapeOf]⟩
     | _ => simp [IsInst] at hb
   | mprocess s1 sh1 e1 h1 =>
     cases b with
     | gate s2 B =>
       simp only [IsInst] at ha hb; obtain ⟨hs, hl⟩ := ha
-      exact ⟨.mprocess s sh1 eps8 (h1.map fun hs => hs.mul B), by simp [compose, mkMProcess, hl, hb, hs],
+      exact ⟨.mprocess s sh1 e1 (h1.map fun hs => hs.mul B), by simp [compose, mkMProcess, hl, hb, hs],
         by simp [IsInst, hl], by simpa [instOf] using (gate_branches_are_instruments B B h1).2.2, by simp [shapeOf]⟩
     | mprocess s2 sh2 e2 h2 =>
       simp only [IsInst] at ha hb; obtain ⟨hs1, hl1⟩ := ha; obtain ⟨hs2, hl2⟩ := hb
       have hlen : (mpMp h1 h2).length = QM.C16.prod (sh2 ++ sh1) := by
         rw [mpMp_length, c16prod_append, hl1, hl2]
-      exact ⟨.mprocess s (sh2 ++ sh1) eps8 (mpMp h1 h2), by simp [compose, mkMProcess, hlen, hs1, hs2],
+      exact ⟨.mprocess s (sh2 ++ sh1) (if e1 < e2 then e2 else e1) (mpMp h1 h2), by simp [compose, mkMProcess, hlen, hs1, hs2],
         by simp [IsInst, hlen], rfl, rfl⟩
     | _ => simp [IsInst] at hb
   | _ => simp [IsInst] at ha
@@ -567,7 +566,8 @@ theorem tree_eval_instruments (c : Cfg) (s : Nat) (t : Tree n) (h : ∀ x ∈ t.
     · rw [hvsh, hash, hbsh, Tree.leaves, List.map_append, List.reverse_append, List.flatten_append]
 
 /-- corollary: two bracketings of the same chain of instruments give results with the same outcome maps, in the same
-order, under the same reported shape (the only field that may differ is `eps_zero`, which `compose` resets) -/
+order, under the same reported shape (the remaining field, `eps_zero`, is the largest `eps_zero` among the measurement
+processes of the chain in every bracketing — `max` is associative — which is not stated here) -/
 theorem tree_bracketing_instruments (c : Cfg) (s : Nat) (t t' : Tree n) (h : ∀ x ∈ t.leaves, IsInst s x)
     (hl : t'.leaves = t.leaves) :
     ∃ v v', t.eval c = .ok v ∧ t'.eval c = .ok v' ∧ instOf v = instOf v' ∧ shapeOf v = shapeOf v' := by
@@ -643,19 +643,21 @@ theorem composeChain_eq_rightNested (c : Cfg) (l : List (QOp n)) (t : Tree n) (h
     have : (a :: as) = init.reverse := hr.symm
     rw [this, foldl_chain, ← key _ t ht last init rfl, hv]
 
-/-- C06 `assoc_mprocess_gate_state` without the default-`eps_zero` restriction is **false** (open finding D16: the
-dispatch rebuilds `M∘G`, `G∘M`, `M∘M` without passing `eps_zero`, operators.py:449-466, 542): for a measurement process
-with `eps_zero = 1/2` and outcome probabilities 1/3, 2/3 the bracketing `(M∘G)∘ρ` keeps both outcomes while `M∘(G∘ρ)`
-truncates the first. -/
-theorem assoc_mprocess_gate_state_eps_fails :
-    ¬ ∀ (c : Cfg) (s : Nat) (shape : List Nat) (eps : Rat) (hss : List (Mat Rat 1 1)) (G : Mat Rat 1 1)
-        (rho : Vec Rat 1), hss.length = QM.C16.prod shape →
-      (compose c (.mprocess s shape eps hss) (.gate s G)).bind (fun x => compose c x (.state s rho))
-        = (compose c (.gate s G) (.state s rho)).bind (fun y => compose c (.mprocess s shape eps hss) y) := by
+/-- what remains inexact by design of the thresholding: `(M₁∘M₂)∘ρ` truncates and renormalises over **all** joint
+outcomes at once, `M₁∘(M₂∘ρ)` renormalises inside the block of each earlier outcome, so outside the no-truncation
+regime (`compose_assoc_mprocess_partial`) the two bracketings can differ by the truncated mass. Witness with the same
+`eps_zero = 1/7` on both processes, `M₂ = (2/3, 1/3)`, `M₁ = (3/4, 1/4)`: joint probabilities `(1/2, 1/6, 1/4, 1/12)`;
+only `1/12` is truncated; the composite reports `(6/11, 2/11, 3/11, 0)`, the step-by-step evaluation `(1/2, 1/6, 1/3, 0)`. -/
+theorem compose_assoc_mprocess_truncation_fails :
+    ¬ ∀ (c : Cfg) (a b r : QOp 1),
+        distShape ((Tree.node (.node (.leaf a) (.leaf b)) (.leaf r)).eval c)
+          = distShape ((Tree.node (.leaf a) (.node (.leaf b) (.leaf r))).eval c) := by
   intro h
-  have := h { sd := 1, atol := 0 } 0 [2] (1 / 2) [#v[#v[1/3]], #v[#v[2/3]]] #v[#v[1]] #v[1] (by decide)
-  have h2 := congrArg distShape this
-  revert h2
+  have := h { sd := 1, atol := 0 }
+    (.mprocess 0 [2] (1 / 7) [#v[#v[3/4]], #v[#v[1/4]]])
+    (.mprocess 0 [2] (1 / 7) [#v[#v[2/3]], #v[#v[1/3]]])
+    (.state 0 #v[1])
+  revert this
   decide +kernel
 
 /-- C06 "Born-rule distribution (non-negative …)" as computed: whatever the inputs, every entry `truncate_and_normalize`
@@ -795,7 +797,8 @@ theorem compose_assoc_mprocess_partial (sd eps : Rat) (h1 h2 : List (Mat Rat n n
 `MProcess∘StateEnsemble` gives to `M₁∘(M₂∘ρ)` (ensemble shape first, then the later process) -/
 theorem compose_mprocess_mprocess_shape (c : Cfg) (s : Nat) (sh1 sh2 : List Nat) (e1 e2 : Rat)
     (h1 h2 : List (Mat Rat n n)) :
-    compose c (.mprocess s sh1 e1 h1) (.mprocess s sh2 e2 h2) = mkMProcess s (sh2 ++ sh1) eps8 (mpMp h1 h2) := by
+    compose c (.mprocess s sh1 e1 h1) (.mprocess s sh2 e2 h2)
+      = mkMProcess s (sh2 ++ sh1) (if e1 < e2 then e2 else e1) (mpMp h1 h2) := by
   simp [compose]
 
 end a
@@ -1018,9 +1021,22 @@ theorem compose_mprocess_mprocess_matches_source (c : Cfg) (s : Nat) (sh1 sh2 : 
     (h1 h2 : List (Mat Rat n n)) :
     mpMp h1 h2 = QGen.C06.mmCompose Mat.mul h1 h2 ∧
     compose c (.mprocess s sh1 e1 h1) (.mprocess s sh2 e2 h2)
-      = mkMProcess s (QGen.C06.mmShape sh1 sh2) eps8 (QGen.C06.mmCompose Mat.mul h1 h2) := by
+      = mkMProcess s (QGen.C06.mmShape sh1 sh2) (QGen.C06.mmEps e1 e2) (QGen.C06.mmCompose Mat.mul h1 h2) := by
   refine ⟨rfl, ?_⟩
-  simp [compose, QGen.C06.mmShape, QGen.C06.mmCompose, mpMp]
+  simp [compose, QGen.C06.mmShape, QGen.C06.mmCompose, QGen.C06.mmEps, mpMp]
+
+/-- the `eps_zero` the dispatch hands to `G∘M`, `M∘G` and `G∘StateEnsemble` is the keyword argument regenerated from
+the source (dropping `eps_zero=…` again, the defect D16, makes the generated value the constructor default and this
+proof fail) -/
+theorem compose_eps_matches_source (c : Cfg) (s : Nat) (shape : List Nat) (eps epsE : Rat)
+    (hss : List (Mat Rat n n)) (G : Mat Rat n n) (states : List (Vec Rat n)) (d : Dist) :
+    compose c (.gate s G) (.mprocess s shape eps hss)
+        = mkMProcess s shape (QGen.C06.gmEps eps8 eps) (hss.map fun hs => G.mul hs) ∧
+      compose c (.mprocess s shape eps hss) (.gate s G)
+        = mkMProcess s shape (QGen.C06.mgEps eps eps8) (hss.map fun hs => hs.mul G) ∧
+      compose c (.gate s G) (.ensemble s states d epsE)
+        = .ok (.ensemble s (states.map fun v => G.mulVec v) d (QGen.C06.geEps eps8 epsE)) := by
+  refine ⟨?_, ?_, ?_⟩ <;> simp [compose, QGen.C06.gmEps, QGen.C06.mgEps, QGen.C06.geEps]
 
 /-- `Povm∘MProcess` of the model is the generated loop nest with `hs.T @ vec` (seeded change C06-1 breaks this) -/
 theorem povmMProcess_matches_source (vecs : List (Vec Rat n)) (hss : List (Mat Rat n n)) :
